@@ -64,6 +64,10 @@ FIXED = [
     (['C04'], 'document/msgpack/member/float->f32/* (inf, nan)', 'infinity and NaN could not be converted from double to float', 'MsgPack float64 +-infinity / NaN loaded into a float member was reported as Overflow (or skipped) although float represents them; Convert::To<float>(double infinity) threw out_of_range'),
     (['C04', 'C16'], 'document/xml|csv/*/float->int/wrong-value', 'numbers in exponent notation were truncated', 'XML/CSV text "1e+300" loaded into int64_t as 1, "1e+20" into uint32_t as 1, "0.5" into bool as false (only the "1.5" form was rejected): the integer prefix was taken and the exponent ignored'),
     (['C02'], 'died/msgpack/hang | fuzz/timeout/*', 'endless loop when loading a MsgPack map which contains a NaN key', 'MsgPack map with a NaN float key among several entries (e.g. 83 CB 7FF8000000000000 A1 61 ... ) loaded into std::map<std::string, T> never returned: the enumerated key is passed by reference to its own storage, NaN != NaN made the lookup rescan and restart the enumeration from the first entry forever (found by the libFuzzer stage, kept as a directed canary in the quick tier)'),
+    (['C15'], 'dt/accepted-invalid/*', 'ISO-8601 date parser accepted a year with two signs', 'Convert::To<time_t>("+-10000-05-31T23:27:07Z") returned the instant of year -10000 instead of invalid_argument (the explicit plus sign was skipped and from_chars then took the minus); found by the thorough tier'),
+    (['C10', 'C05'], 'json/hostile/value/[]', 'an element of std::set which was skipped by the policies was inserted', '[3212121212121212121869482,2024259981] into std::set<int32_t> under the Skip policies inserted an indeterminate value for the skipped element (different garbage from memory and from a stream; now a value-initialised element like the slot of a vector); found by the thorough tier of C10'),
+    (['C10', 'C07'], 'msgpack/hostile/error-category/ParsingException*-vs-*Mismatched types', 'required one byte after the type code of an extension', 'the two bytes D6 80 (fixext4 without data) into a map: memory input reported ParsingException, stream input MismatchedTypes; the memory reader demanded a byte after the extension type code, so a valid empty extension at the end of input (C7 00 05) was reported as truncated'),
+    (['C07'], 'illformed-accepted/*/0xc1', 'silently skipped the byte code 0xC1', 'a document with the never-used byte code 0xC1 as the value of a member that the target does not load (e.g. {"id":1,"zz_unknown":<C1>}) was accepted: SkipValue treated it as a one-byte value; found by the thorough tier'),
 ]
 
 KNOWN = [
